@@ -95,8 +95,34 @@ func ruleDetectTable(c *Ctx) {
 		}
 	}
 	info := fm.Info()
+	// helpers that only fenceMatch (transitively) calls are parts of it: their bodies are evaluated in place
+	own := c.calledOnlyFrom("fenceMatch")
+	touches := map[*types.Func]bool{}
+	opaque := map[*types.Func]bool{} // shared by all scenarios: callees found to lie outside the fragment
 	mkTable := func(sc scen, objNil bool) *DTable {
-		t := &DTable{c: c, fn: fm, info: info}
+		t := &DTable{c: c, fn: fm, info: info, noInline: opaque}
+		t.Inline = func(f *types.Func) bool {
+			if !own[f] || f == fm.Obj || f == mk.Obj || f == fmo.Obj || strings.HasPrefix(f.Name(), "fenceMatchRoam") || f.Name() == "fenceMatchNearbys" || f.Name() == "extendRoamMessage" {
+				return false
+			}
+			// a helper that consults the shared registries (group ids) is not part of the classification
+			if v, ok := touches[f]; ok {
+				return !v
+			}
+			touches[f] = false
+			if fi := c.FuncOf(f); fi != nil && fi.Decl.Body != nil {
+				guarded := c.muData().guarded
+				ast.Inspect(fi.Decl.Body, func(n ast.Node) bool {
+					if se, ok := n.(*ast.SelectorExpr); ok {
+						if fv := selField(fi.Info(), se); fv != nil && guarded[fv] != "" {
+							touches[f] = true
+						}
+					}
+					return true
+				})
+			}
+			return !touches[f]
+		}
 		nilCmp := func(r *dtRun, e ast.Expr, sym, base string, isNil bool) (dtVal, bool) {
 			switch sym {
 			case base + " == nil":
